@@ -8,7 +8,7 @@
 //! parallel dispatcher the declarations allow.
 
 use crate::baton::{run_tasks, BatonCfg, Policy, Recorded, TaskBody, TaskCtx};
-use crate::comps::{CDense, CHash, CVec, FBTree, TComp};
+use crate::comps::{CDense, CNull, CVec, FBTree, TComp};
 use crate::engine::{ddmin, Engine, Report, Viol};
 use crate::rng::{mix, Rng, TraceHash};
 use serde::{Deserialize, Serialize};
@@ -23,7 +23,7 @@ use std::sync::{Arc, Mutex};
 
 type T0 = CVec;
 type T1 = CDense;
-type T2 = CHash;
+type T2 = CNull;
 type T3 = FBTree;
 
 #[derive(Clone, Copy, Debug, PartialEq, Eq, Serialize, Deserialize, PartialOrd, Ord)]
